@@ -318,6 +318,26 @@ class E(Model):
     def a_columns(self, I):
         return Cols(self)
 
+    def a_iloc(self, I):
+        return ILoc(self)
+
+    def a_index(self, I):
+        return E("index", self)
+
+    def a_values(self, I):
+        return E("values", self)
+
+    def getattr(self, I, name):
+        try:
+            return Model.getattr(self, I, name)
+        except Unsupported:
+            from pyvc.interp import PyBuiltin
+            # any other pandas method: kept as a term ("call", receiver, method, args, kwargs)
+            return PyBuiltin("pandas." + name, lambda I_, *a, **k: E("call", self, name, tuple(a), tuple(sorted(k.items(), key=lambda kv: kv[0]))))
+
+    def binop(self, I, op, other, swapped):
+        return E("binop", type(op).__name__, other, self) if swapped else E("binop", type(op).__name__, self, other)
+
     def m_unique(self, I):
         return E("unique", self)
 
@@ -348,6 +368,14 @@ class Loc(Model):
 
     def setitem(self, I, key, v):
         LOG.append(("loc-set", self.df, key, v))
+
+
+class ILoc(Model):
+    def __init__(self, df):
+        self.df = df
+
+    def getitem(self, I, key):
+        return E("iloc", self.df, key)
 
 
 class Cols(Model):
